@@ -609,6 +609,60 @@ def run(rep, ctx):
             continue
         seen.add(k)
         u1.check(ok, k, short_loc(f.loc), "VisitUnsupported throws UnsupportedError on every path")
+    # ---- W1: which invocation modes get a .sol file ---------------------------------------------------------
+    # AppSolutionHandlerImpl::HandleSolution is evaluated for -AMPL on/off x wantsol 0..15 (documented bits: 1 write the
+    # .sol file, 2 print the primal, 4 print the dual values, 8 suppress the solve message)
+    w1 = rep.rule("C09.W1", "TABLE", "the application's solution handler writes the .sol file iff -AMPL is given or bit 1 of wantsol is set, and without -AMPL "
+                  "prints the message unless bit 8 is set (evaluation over -AMPL x wantsol 0..15)", floor=2)
+    Fw = Facts(export_many([dict(unit=MM, fn=[r"mp::internal::AppSolutionHandlerImpl::HandleSolution"], repo=repo)]))
+    hs = [g for g in Fw.funcs if not g.is_dependent() and g.cfg is not None and g.qn == "mp::internal::AppSolutionHandlerImpl::HandleSolution"]
+    if not hs:
+        raise AnalysisBroken("C09.W1: AppSolutionHandlerImpl::HandleSolution not found")
+    H = sorted(hs, key=lambda g: g.full)[0]
+    bad_sol, bad_out, ncase = [], [], 0
+    for ampl_ in (0, 1):
+        for ws_ in range(16):
+            ev_ = []
+
+            def atom_w(t_, n_, env_, ampl_=ampl_, ws_=ws_, ev_=ev_):
+                if n_["k"] in ("CXXMemberCallExpr", "CallExpr", "CXXOperatorCallExpr"):
+                    cn = (n_.get("callee") or "").split("::")[-1]
+                    if cn == "wantsol":
+                        return ws_
+                    if cn == "ampl_flag":
+                        return ampl_
+                    if cn == "HandleSolution":
+                        ev_.append("sol")
+                        return 0
+                    if cn == "Print":
+                        ev_.append("msg")
+                        return 0
+                    if cn == "PrintSolution":
+                        a0 = strip(call_args(n_)[0])
+                        ev_.append("primal" if a0.get("declId") == H.params[2]["declId"] else "dual" if a0.get("declId") == H.params[3]["declId"] else "other")
+                        return 0
+                    if cn in ("operator<<", "HandleOutput", "c_str", "output_handler", "num_vars", "num_algebraic_cons", "stub", "builder", "pad", "solver"):
+                        return 0
+                if n_["k"] == "MemberExpr":
+                    return 0
+                return None
+            mi = MiniInt(Fw, atom_w)
+            mi.select_only = True
+            try:
+                mi.call(H, [0, 0, 0, 0, 0])
+            except AnalysisBroken as e_:
+                if "without a return" not in str(e_):
+                    raise AnalysisBroken("C09.W1: HandleSolution: %s" % e_)
+            ncase += 1
+            if (ev_.count("sol") == 1) != bool(ampl_ or ws_ & 1) or ev_.count("sol") > 1:
+                bad_sol.append("%s wantsol=%d: .sol %s" % ("-AMPL" if ampl_ else "stand-alone", ws_, "written" if "sol" in ev_ else "not written"))
+            want_out = [] if ampl_ else ([x for x, b in (("msg", not ws_ & 8), ("primal", ws_ & 2), ("dual", ws_ & 4)) if b])
+            if [x for x in ev_ if x != "sol"] != want_out:
+                bad_out.append("%s wantsol=%d: prints %s, expected %s" % ("-AMPL" if ampl_ else "stand-alone", ws_, [x for x in ev_ if x != "sol"], want_out))
+    w1.check(not bad_sol, "sol-file-modes", _short_loc(H.loc), "%d cases: the .sol file is written iff -AMPL or wantsol&1" % ncase,
+             "%s - the run ends with exit status 0 and neither a .sol file nor a message on stderr" % "; ".join(bad_sol[:3]))
+    w1.check(not bad_out, "stdout-modes", _short_loc(H.loc), "%d cases: message unless wantsol&8, primal iff wantsol&2, dual iff wantsol&4, nothing under -AMPL" % ncase,
+             "; ".join(bad_out[:3]))
     # ---- B1: an infinite body bound of an indicator needs a usable big-M, otherwise the conversion fails with a diagnosis ------
     b1 = rep.rule("C09.B1", "GUARD", "indicator linearisation with an unbounded body: the default big-M replaces the bound iff it is positive; otherwise "
                   "the conversion raises ConstraintConversionFailure (reported as a failure, not a model with an invented bound)", floor=2)
